@@ -136,9 +136,10 @@ pub fn run(ctx: &Ctx) -> i32 {
         }
         rep
     });
+    let mut rep = rep;
+    crate::regress::replay_witnesses(ctx, &mut rep);
     let loaded = rep.get("rules_loaded");
     let rejected = rep.get("load_rejected");
-    let mut rep = rep;
     if loaded * 2 < rejected {
         rep.inconclusive.push(format!("only {} of {} generated rules loaded", loaded, loaded + rejected));
     }
